@@ -86,6 +86,8 @@ pub struct ScenarioInfo {
     pub thorough_runs: u64,
     /// worker address-space limit in bytes (0 = none)
     pub rlimit_as: u64,
+    /// false: a worker abort caused by allocator exhaustion is a `resource` outcome, not a violation
+    pub alloc_abort_is_violation: bool,
 }
 
 pub trait Scenario {
@@ -241,7 +243,7 @@ pub fn install_panic_hook() {
             Some(l) => {
                 let f = l.file();
                 // keep path relative to the repository / registry crate so signatures are stable
-                let short = if let Some(idx) = f.find("/src/") {
+                let short = if let Some(idx) = f.rfind("/src/") {
                     let head = &f[..idx];
                     let crate_dir = head.rsplit('/').next().unwrap_or("");
                     format!("{}{}", crate_dir, &f[idx..])
